@@ -720,17 +720,24 @@ def run(ctx: vlib.Ctx):
     # (T) kernel K105c (prologue of the emitted discriminated dispatcher): its exceptions are Errs.discr_run's, it hands on the tag
     ctx.theorems("props/C05_discr_emit.vo", ["C05_discr_prologue_exn", "C05_discr_prologue_ok", "C05_discr_prologue_classes"],
                  kernels=["K105c"])
+    # (T) kernel K45 (the code unpack_named_tuple emits, C03's translation): the dict form of a NamedTuple, run with exception
+    # classes and arbitrary item unpackers: no silent default, first bad item decides, an inner KeyError is not "key absent"
+    ctx.theorems("props/C05_nt_emit.vo", ["C05_namedtuple_dict_no_silent_default", "C05_namedtuple_dict_first_exn",
+                                          "C05_namedtuple_dict_inner_keyerror"], kernels=["K45"])
+    # (T) kernel K45a (the statements unpack_typed_dict emits, C03's translation): nothing present is dropped, the exception of an
+    # optional key's unpacker is not "key absent"
+    ctx.theorems("props/C05_td_emit.vo", ["C05_typeddict_no_silent_drop", "C05_typeddict_optional_exn"], kernels=["K45a"])
     # (T) kernel K16: emitted handler classes + exceptions.py hierarchy, re-translated from /repo on every run
     ctx.theorems("props/C05_handlers.vo", ["C05_k16_handlers_as_modelled", "C05_k16_documented_pass_through",
                                            "C05_k16_model_patterns"], kernels=["K16"])
     if not ctx.quick():
         # second opinion: the independent checker re-validates the compiled property files and their cone
         rc, log, secs = vlib.run(["timeout", "1500", "coqchk", "-silent", "-o", "-Q", "theories", "Verif", "-Q", "gen", "VerifGen",
-                                  "-Q", "props", "VerifProps", "VerifProps.C05_errors", "VerifProps.C05_typed", "VerifProps.C05_xtyped", "VerifProps.C05_emit", "VerifProps.C05_fieldblock", "VerifProps.C05_discr_emit", "VerifProps.C05_handlers"],
+                                  "-Q", "props", "VerifProps", "VerifProps.C05_errors", "VerifProps.C05_typed", "VerifProps.C05_xtyped", "VerifProps.C05_emit", "VerifProps.C05_fieldblock", "VerifProps.C05_discr_emit", "VerifProps.C05_nt_emit", "VerifProps.C05_td_emit", "VerifProps.C05_handlers"],
                                  cwd=vlib.COQ, timeout=1530)
         ok = rc == 0 and "Axioms: <none>" in log
-        ctx.obligation("coqchk VerifProps.C05_errors C05_typed C05_xtyped C05_emit C05_fieldblock C05_discr_emit C05_handlers (Axioms: <none>)", ok, log[-400:])
-        ctx.trusted.append("coqchk -o on C05_errors + C05_typed + C05_xtyped + C05_emit + C05_fieldblock + C05_discr_emit + C05_handlers: " + ("Axioms: <none>" if ok else "FAILED " + log[-200:]))
+        ctx.obligation("coqchk VerifProps.C05_errors C05_typed C05_xtyped C05_emit C05_fieldblock C05_discr_emit C05_nt_emit C05_td_emit C05_handlers (Axioms: <none>)", ok, log[-400:])
+        ctx.trusted.append("coqchk -o on C05_errors + C05_typed + C05_xtyped + C05_emit + C05_fieldblock + C05_discr_emit + C05_nt_emit + C05_td_emit + C05_handlers: " + ("Axioms: <none>" if ok else "FAILED " + log[-200:]))
         if not ok:
             ctx.not_shown("coqchk VerifProps.C05_errors/C05_typed", log[-800:])
 
@@ -861,6 +868,12 @@ def run(ctx: vlib.Ctx):
                 ctx.count(("probe", s["cls"], entry))
 
         hostile_probe(ctx)
+        # dict-form NamedTuples below a dataclass (namedtuple_as_dict / deserialize="as_dict"): items whose own unpackers raise
+        # KeyError, with and without defaults, at depth >= 2, against an independent reference of the item rule
+        from harness.props import c05_ntdict
+        nd_cases, nd_bad = c05_ntdict.run(ctx, ctx.budget(60, 600), ctx.budget(4, 6))
+        ctx.correspondence("c05_ntdict_item_rule", nd_cases, nd_bad,
+                           "dict-form NamedTuple items vs the independent reference of C05_namedtuple_dict_no_silent_default")
 
         # ---- discriminated roots
         pm = G.prelude_module()
@@ -982,6 +995,9 @@ def replay(rep: dict) -> int:
         print("recorded:", rep.get("outcome"), "|", rep.get("observed"))
         print("REPRODUCED" if got == rep.get("outcome") else "not reproduced")
         return 1 if got == rep.get("outcome") else 0
+    if rep.get("entry", "").startswith("ntdict:"):
+        from harness.props import c05_ntdict
+        return c05_ntdict.replay(rep)
     if rep.get("entry") == "build":
         try:
             if schema.get("standalone"):
